@@ -278,8 +278,16 @@ def run(tier="quick", seed=0, jobs=16):
     ne2, nd2, bad2 = _bounded_bg_wthh(3)
     rep.bounded["proved_kernels_vs_spec"] = {"evaluations": ne + ne2, "distinct_nontrivial": nd + nd2, "rule": "eg/ehe/sn: all partial matchings of <=4 persons x all row orders x all flag vectors; bg/wthh: all inputs over small domains for <=3 rows; distinct = structures", "failures": (bad + bad2)[:5], "exhaustive": True}
     nmax = 4 if tier == "quick" else 5
+    import inspect as _insp
+
+    from _gettsim import groupings as _g0
+
+    fg_sig = list(_insp.signature(_insp.unwrap(_g0.fg_id_numpy)).parameters)
+    fg_binds = fg_sig == ["p_id", "hh_id", "alter", "p_id_einstandspartner", "p_id_elternteil_1", "p_id_elternteil_2"]
+    if not fg_binds:
+        rep.ob("F fg_id_numpy: the specification binds to the kernel (its inputs are p_id, hh_id, alter, partner and parent pointers)", "unsupported", "binding", 0, "src/_gettsim/groupings.py fg_id_numpy", "binding", f"signature is now {fg_sig}")
     jobs_list = []
-    for n in range(1, nmax + 1):
+    for n in range(1, (nmax if fg_binds else 0) + 1):
         total = len(gs.ID_LABELLINGS) * sum(1 for _ in gs.family_structures(n))
         step = max(1, total // (jobs * (4 if n >= 4 else 1)) + 1)
         for lo in range(0, total, step):
@@ -303,7 +311,7 @@ def run(tier="quick", seed=0, jobs=16):
 
     rng = _r.Random(seed)
     n_rand = 0
-    for _ in range(300 if tier == "quick" else 4000):
+    for _ in range((300 if tier == "quick" else 4000) if fg_binds else 0):
         n = rng.randint(6, 8)
         d = gs.random_structure(n, rng)
         if d is None:
